@@ -263,7 +263,13 @@ pub fn next_op(rng: &mut Rng, cfg: &Cfg, model: &[Vec<(u32, u64)>], step: usize)
         8 => Op::RangeAgg { slot, l: rng.usize_below(len.max(1)), r: rng.usize_below(len.max(1)) },
         9 => Op::First { slot },
         10 => Op::Last { slot },
-        11 => Op::Size { slot },
+        11 => {
+            if rng.chance(1, 2) {
+                Op::Size { slot }
+            } else {
+                Op::NodePoke { slot, path: rng.below(256) as u32, depth: rng.below(5) as u8, what: rng.below(3) as u8 }
+            }
+        }
         _ => Op::Collect { slot },
     })
 }
